@@ -4,7 +4,7 @@ from .. import gen as G
 
 PID = "C01"
 RULE = ("protocol-respecting programs over all 30 Destination methods (all ADJ, incr forms, every colour kind, runs crossing the "
-        "16/32 repeat limits for every verb incl. arcs/H/V, numbers of every float class, lo/hi resolution toggled between paths, "
+        "16/32 repeat limits for every verb incl. arcs/H/V, unbroken runs of 255..600 (thorough: 65535..65541) identical operations, numbers of every float class, lo/hi resolution toggled between paths, "
         "default and custom viewBox/palette) encoded by the real Encoder and decoded by the real decoder (ED); decoder-accepted "
         "grammar-level streams incl. non-canonical number forms and streams ending inside a path, transcoded 3 times at both "
         "resolutions (TR). Observable: decoded calls, not bytes. Non-trivial: decodes OK with at least one path; distinct by text.")
@@ -62,6 +62,22 @@ def generate(rng, tier):
         # cut the trailing end-path so the stream ends inside a path
         s2 = s + "%02x" % (0xc0 + rng.below(7)) + G.rnumber_bytes(rng) + G.rnumber_bytes(rng) + G.drawing_bytes(rng)
         g["transcode-midpath"].append("TR 3 %d %s" % (rng.below(2), s2))
+    # unbroken runs far beyond the opcode limits (a flattened curve is hundreds of identical segments): counts around 2^8 and
+    # 2^9 for every verb, around 2^16 for the line verbs in the thorough tier; a different run follows so that a lost or
+    # misplaced flush shows
+    g["very-long-runs"] = []
+    for v in list(G.VERBS) + ["A", "a"]:
+        ns = [255, 256, 257, 300, 512, 513, 600]
+        if tier != "quick" and v in "LlHhVv":
+            ns += [65535, 65536, 65541]
+        for n in ns:
+            t = [rng.choice(["H0", "H1"]), "SP", "0", G.fl(rng), G.fl(rng)]
+            if rng.below(2):
+                t += G.draw_op(rng, rng.choice("QqCc"))
+            for _ in range(n):
+                t += G.draw_op(rng, v)
+            t += G.draw_op(rng, rng.choice("Tt")) + ["Z"]
+            g["very-long-runs"].append("ED " + " ".join(t))
     return g
 
 
